@@ -3,6 +3,7 @@
 pub mod byz;
 pub mod chain;
 pub mod node;
+pub mod solo;
 pub mod universe;
 
 use crate::util::{machinery_error, ncpu, Report, Tier};
@@ -171,6 +172,33 @@ impl Search {
             id: SEARCH_ID.fetch_add(1, Ordering::Relaxed),
             cfg,
         }
+    }
+
+    /// Boot node `i` and return its initial local state.
+    pub fn boot_local(&self, i: usize) -> LId {
+        let (ln, res) = LiveNode::boot(&self.world, &self.uni, i);
+        let lid = self.intern_local(res.key, None, &[]);
+        for f in &res.findings {
+            self.record_finding(f, i, &[]);
+        }
+        for (m, d) in &res.out {
+            let _ = self.pid(*m, *d);
+        }
+        self.put_live(lid, ln);
+        lid
+    }
+
+    /// The longest recorded input history of any local state (for samples).
+    pub fn deepest_history(&self) -> Option<Vec<Ev>> {
+        let n = self.locals.len();
+        let mut best: Option<Vec<Ev>> = None;
+        for id in (0..n).rev().take(50) {
+            let h = self.history_of(id as LId);
+            if best.as_ref().map_or(true, |b| h.len() > b.len()) {
+                best = Some(h.into_iter().map(|(_, e)| e).collect());
+            }
+        }
+        best
     }
 
     pub fn id(&self) -> u64 {
@@ -716,6 +744,10 @@ impl Search {
 // Configurations and per-property entry points
 // ---------------------------------------------------------------------------------------------
 
+pub fn clear_thread_cache() {
+    CACHE.with(|c| c.borrow_mut().1.clear());
+}
+
 pub fn cfg_h4(r: u64, t: u8, tier: Tier) -> Cfg {
     Cfg {
         name: format!("H4(R={},T={})", r, t),
@@ -803,12 +835,18 @@ pub fn run_configs(rep: &mut Report, property: &str, cfgs: Vec<Cfg>, validate: u
             }
             let replay = match &rec.global_path {
                 Some(path) => json!({
-                    "engine": "proto", "config": cfg.name, "kind": "global",
+                    "engine": "proto", "config": cfg.name, "kind": "global", "honest": cfg.honest,
                     "events": path.iter().map(|a| s.describe_act(a)).collect::<Vec<_>>(),
+                    "events_raw": path.iter().map(|a| match a {
+                        Act::Deliver(i, m) | Act::ByzDeliver(i, m) => json!({"node": i, "deliver": crate::util::hex(&s.uni.msg(*m).bytes)}),
+                        Act::Timer(i) => json!({"node": i, "timer": true}),
+                        _ => json!({}),
+                    }).collect::<Vec<_>>(),
                 }),
                 None => json!({
                     "engine": "proto", "config": cfg.name, "kind": "local", "node": rec.node,
                     "events": rec.history.iter().map(|e| s.describe_ev(e)).collect::<Vec<_>>(),
+                    "events_raw": rec.history.iter().map(|e| match e { Ev::Timer => "timer".to_string(), Ev::Deliver(m) => crate::util::hex(&s.uni.msg(*m).bytes) }).collect::<Vec<_>>(),
                 }),
             };
             rep.violation(sig.clone(), format!("[{}] {}", cfg.name, f.what), replay);
